@@ -3,7 +3,14 @@ depends on which spelling a maintainer prefers.
 
   if <c>: raise AssertionError(<msg>)                 ->  assert not <c>, <msg>
   _require(<c>, <msg>)   where _require is a helper   ->  assert <c>, <msg>
-      whose whole body is `if not p: raise AssertionError(m)`
+      that does nothing but raise AssertionError exactly when its parameter is false (decided by path enumeration; the
+      helper may live in a sibling module, be a method, build its message lazily)
+  all(map(f, S)) / any(map(f, S))                     ->  all(f(_each) for _each in S)
+  x = A if c else B                                   ->  if c: x = A else: x = B
+  for x in (A if c else ()): BODY                     ->  if c: for x in A: BODY
+  X.extend(E for v in IT if C) / X += [E for …]       ->  for v in IT: if C: X.append(E)        (S.update(…) -> S.add, D.update(pairs) -> D[k] = v)
+  NAME = make(a…)   where make only defines and       ->  def NAME(…): <the inner function's body with make's parameters replaced>
+      returns one inner function
 
 Both rewrites keep the line numbers of the original statement.  (They differ from the original only under `python -O`, which
 the analysis assumes is not used: asserts are the library's documented precondition mechanism.)"""
@@ -32,39 +39,229 @@ def _negate(t):
     return ast.copy_location(ast.UnaryOp(op=ast.Not(), operand=t), t)
 
 
-def _require_helpers(tree):
-    """functions whose body is `if not <p>: raise AssertionError(<m>)` (docstring allowed): name -> (index of p, index of m or None),
-    indices counted without `self`"""
+def _require_helpers(tree, nodes=None):
+    """functions that do nothing but refuse with AssertionError unless one of their parameters is true: name -> (index of that
+    parameter, index of the message parameter or None), indices counted without `self`.  Recognised by path enumeration: every
+    path that raises does so with AssertionError and only when the parameter is false, every path that ends normally needs it
+    true, and the body contains nothing but ifs, returns and raises."""
+    from .paths import stmt_paths
     out = {}
-    for fn in ast.walk(tree):
+    for fn in (nodes if nodes is not None else ast.walk(tree)):
         if not isinstance(fn, ast.FunctionDef):
             continue
         body = [s for s in fn.body if not (isinstance(s, ast.Expr) and isinstance(s.value, ast.Constant))]
-        if len(body) != 1 or not isinstance(body[0], ast.If) or body[0].orelse or len(body[0].body) != 1:
+        if not body or len(body) > 4 or not all(isinstance(s, (ast.If, ast.Return, ast.Raise)) for s in body):
             continue
-        args = _is_assertion_raise(body[0].body[0])
-        if args is None:
+        if any(not isinstance(x, (ast.If, ast.Return, ast.Raise)) for s in body for x in ast.walk(s) if isinstance(x, ast.stmt)):
+            continue
+        raises = [x for s in body for x in ast.walk(s) if isinstance(x, ast.Raise)]
+        if not raises or any(_is_assertion_raise(r) is None and not (
+                isinstance(r.exc, ast.Call) and isinstance(r.exc.func, ast.Name) and r.exc.func.id == "AssertionError") for r in raises):
+            continue
+        if any(isinstance(x, ast.Return) and x.value is not None for s in body for x in ast.walk(s)):
             continue
         params = [a.arg for a in fn.args.args]
         if params and params[0] in ("self", "cls"):
             params = params[1:]
-        t = body[0].test
-        if not (isinstance(t, ast.UnaryOp) and isinstance(t.op, ast.Not) and isinstance(t.operand, ast.Name) and t.operand.id in params):
+        paths = list(stmt_paths(body, frozenset(), {}, None))
+        if any(oc is None for oc, fa, df in paths):
             continue
-        mi = None
-        if args:
-            if isinstance(args[0], ast.Name) and args[0].id in params:
-                mi = params.index(args[0].id)
-            elif isinstance(args[0], ast.Call) and not args[0].args and isinstance(args[0].func, ast.Name) and args[0].func.id in params:
-                mi = params.index(args[0].func.id)  # lazily built message: m()
-            else:
-                continue
-        out[fn.name] = (params.index(t.operand.id), mi)
+        for pi, p in enumerate(params):
+            ok = True
+            for oc, fa, df in paths:
+                if oc == "raise":
+                    ok = ok and ("falsy(%s)" % p) in fa
+                else:
+                    ok = ok and ("truthy(%s)" % p) in fa
+            if ok and paths:
+                mi = None
+                for r in raises:
+                    for x in ast.walk(r):
+                        if isinstance(x, ast.Name) and x.id in params and x.id != p and mi is None:
+                            mi = params.index(x.id)
+                out[fn.name] = (pi, mi)
+                break
     return out
 
 
+def _desugar_bulk(tree, nodes):
+    """a statement that feeds a comprehension straight into a container is read as the loop it abbreviates:
+         X.extend(E for v in IT if C) / X += [E for v in IT if C]   ->  for v in IT: if C: X.append(E)
+         S.update(E for v in IT) / S |= {E for v in IT}              ->  for v in IT: S.add(E)
+         D.update((K, V) for v in IT)                                ->  for v in IT: D[K] = V
+    (X a plain name / attribute chain; a list comprehension that reads X itself is left alone: it is evaluated before X grows)"""
+    from .core import copy_tree, norm
+    from .unroll import _simple, _Sub
+    changed = [False]
+    counter = [0]
+
+    def comp_of(st):
+        """(receiver, kind, comprehension) or None"""
+        if isinstance(st, ast.Expr) and isinstance(st.value, ast.Call) and isinstance(st.value.func, ast.Attribute) and len(st.value.args) == 1 \
+                and not st.value.keywords and st.value.func.attr in ("extend", "update") and _simple(st.value.func.value):
+            return st.value.func.value, st.value.func.attr, st.value.args[0]
+        if isinstance(st, ast.AugAssign) and isinstance(st.op, ast.Add) and _simple(st.target):
+            return st.target, "extend", st.value
+        if isinstance(st, ast.AugAssign) and isinstance(st.op, ast.BitOr) and _simple(st.target) and isinstance(st.value, ast.SetComp):
+            return st.target, "update", st.value
+        return None
+
+    def rewrite(st, used):
+        r = comp_of(st)
+        if r is None:
+            return None
+        recv, kind, comp = r
+        if not isinstance(comp, (ast.GeneratorExp, ast.ListComp, ast.SetComp)):
+            return None
+        if kind == "extend" and isinstance(comp, ast.SetComp):
+            return None
+        recv_txt = norm(recv)
+        if not isinstance(comp, ast.GeneratorExp) and any(norm(x) == recv_txt for x in ast.walk(comp) if isinstance(x, (ast.Name, ast.Attribute))):
+            return None
+        if any(g.is_async for g in comp.generators):
+            return None
+        load = copy_tree(recv)
+        for x in ast.walk(load):
+            if hasattr(x, "ctx"):
+                x.ctx = ast.Load()
+        # comprehension variables become locals of the function: rename those that already mean something there
+        ren = {}
+        for g in comp.generators:
+            for t in ast.walk(g.target):
+                if isinstance(t, ast.Name) and t.id in used:
+                    counter[0] += 1
+                    ren[t.id] = "%s__c%d" % (t.id, counter[0])
+        comp = copy_tree(comp)
+        if ren:
+            class R(ast.NodeTransformer):
+                def visit_Name(self, n):
+                    if n.id in ren:
+                        return ast.copy_location(ast.Name(id=ren[n.id], ctx=n.ctx), n)
+                    return n
+            comp = R().visit(comp)
+        elt = comp.elt
+        if kind == "extend":
+            inner = ast.Expr(value=ast.Call(func=ast.Attribute(value=load, attr="append", ctx=ast.Load()), args=[elt], keywords=[]))
+        elif isinstance(elt, ast.Tuple) and len(elt.elts) == 2 and isinstance(comp, ast.GeneratorExp):
+            # pairs fed to update(): a mapping
+            inner = ast.Assign(targets=[ast.Subscript(value=load, slice=elt.elts[0], ctx=ast.Store())], value=elt.elts[1])
+        elif isinstance(elt, ast.Tuple):
+            return None
+        else:
+            inner = ast.Expr(value=ast.Call(func=ast.Attribute(value=load, attr="add", ctx=ast.Load()), args=[elt], keywords=[]))
+        body = [inner]
+        for g in reversed(comp.generators):
+            for c in reversed(g.ifs):
+                body = [ast.If(test=c, body=body, orelse=[])]
+            tgt = copy_tree(g.target)
+            for x in ast.walk(tgt):
+                if hasattr(x, "ctx"):
+                    x.ctx = ast.Store()
+            body = [ast.For(target=tgt, iter=g.iter, body=body, orelse=[])]
+        out = body[0]
+        for x in ast.walk(out):
+            if isinstance(x, (ast.stmt, ast.expr)) and not hasattr(x, "lineno"):
+                ast.copy_location(x, st)
+        ast.copy_location(out, st)
+        ast.fix_missing_locations(out)
+        changed[0] = True
+        return out
+
+    def block(stmts, used):
+        for i, st in enumerate(stmts):
+            r = rewrite(st, used)
+            if r is not None:
+                stmts[i] = r
+                continue
+            for fld in ("body", "orelse", "finalbody"):
+                sub = getattr(st, fld, None)
+                if isinstance(sub, list) and sub and isinstance(sub[0], ast.stmt) and not isinstance(st, (ast.FunctionDef, ast.AsyncFunctionDef, ast.ClassDef)):
+                    block(sub, used)
+            for h in getattr(st, "handlers", []) or []:
+                block(h.body, used)
+
+    for fn in nodes:
+        if isinstance(fn, (ast.FunctionDef, ast.AsyncFunctionDef)):
+            if not any(comp_of(x) is not None for x in ast.walk(fn) if isinstance(x, (ast.Expr, ast.AugAssign))):
+                continue
+            used = set()
+            for x in ast.walk(fn):
+                if isinstance(x, ast.Name):
+                    # names bound by comprehensions do not count as the function's own
+                    used.add(x.id)
+                elif isinstance(x, ast.arg):
+                    used.add(x.arg)
+            comp_only = set()
+            for x in ast.walk(fn):
+                if isinstance(x, (ast.GeneratorExp, ast.ListComp, ast.SetComp, ast.DictComp)):
+                    for g in x.generators:
+                        for t in ast.walk(g.target):
+                            if isinstance(t, ast.Name):
+                                comp_only.add(t.id)
+            outside = set()
+            comp_nodes = {id(y) for x in ast.walk(fn) if isinstance(x, (ast.GeneratorExp, ast.ListComp, ast.SetComp, ast.DictComp)) for y in ast.walk(x)}
+            for x in ast.walk(fn):
+                if isinstance(x, ast.Name) and id(x) not in comp_nodes:
+                    outside.add(x.id)
+                elif isinstance(x, ast.arg):
+                    outside.add(x.arg)
+            block(fn.body, outside)
+    return changed[0]
+
+
+def _instantiate_factories(tree):
+    """NAME = make(a…) at module level, where `make` is a module-level function that does nothing but define one inner function and
+    return it, is read as `def NAME(<inner parameters>): <inner body, make's parameters replaced by a…>`"""
+    from .core import copy_tree
+    from .unroll import _Sub, _simple
+    factories = {}
+    for fn in tree.body:
+        if not isinstance(fn, ast.FunctionDef) or fn.decorator_list:
+            continue
+        body = [s for s in fn.body if not (isinstance(s, ast.Expr) and isinstance(s.value, ast.Constant))]
+        a = fn.args
+        if len(body) == 2 and isinstance(body[0], ast.FunctionDef) and isinstance(body[1], ast.Return) and isinstance(body[1].value, ast.Name) \
+                and body[1].value.id == body[0].name and not body[0].decorator_list and not (a.vararg or a.kwarg or a.kwonlyargs or a.defaults):
+            inner = body[0]
+            params = [p.arg for p in a.args]
+            if any(isinstance(x, (ast.Nonlocal, ast.Global)) for x in ast.walk(inner)):
+                continue
+            if any(isinstance(x, ast.Name) and x.id in params and not isinstance(x.ctx, ast.Load) for x in ast.walk(inner)):
+                continue
+            if {p.arg for p in inner.args.args} & set(params):
+                continue
+            factories[fn.name] = (fn, inner, params)
+    if not factories:
+        return False
+    changed = False
+    for i, st in enumerate(tree.body):
+        if isinstance(st, ast.Assign) and len(st.targets) == 1 and isinstance(st.targets[0], ast.Name) and isinstance(st.value, ast.Call) \
+                and isinstance(st.value.func, ast.Name) and st.value.func.id in factories and not st.value.keywords:
+            fn, inner, params = factories[st.value.func.id]
+            if len(st.value.args) != len(params) or not all(_simple(x) for x in st.value.args):
+                continue
+            new = copy_tree(inner)
+            new.name = st.targets[0].id
+            new.body = [_Sub(dict(zip(params, st.value.args))).visit(b) for b in new.body]
+            ast.copy_location(new, st)
+            ast.fix_missing_locations(new)
+            tree.body[i] = new
+            changed = True
+    return changed
+
+
+GLOBAL_HELPERS = {}  # name -> (param index, message index): require-helpers seen in any module loaded so far (a helper defined in
+#                        one module and imported into a sibling is recognised in the sibling too)
+
+
 def normalise(tree):
-    helpers = _require_helpers(tree)
+    nodes = list(ast.walk(tree))
+    helpers = dict(GLOBAL_HELPERS)
+    local = _require_helpers(tree, nodes)
+    helpers.update(local)
+    GLOBAL_HELPERS.update(local)
+    imported = {a.asname or a.name for n in nodes if isinstance(n, ast.ImportFrom) for a in n.names}
+    helpers = {k: v for k, v in helpers.items() if k in local or k in imported}
 
     class T(ast.NodeTransformer):
         def visit_If(self, n):
@@ -85,9 +282,85 @@ def normalise(tree):
                 if name in helpers:
                     pi, mi = helpers[name]
                     if pi < len(c.args) and (mi is None or mi < len(c.args)) and not any(isinstance(a, ast.Starred) for a in c.args):
-                        a = ast.Assert(test=c.args[pi], msg=c.args[mi] if mi is not None else None)
+                        msg = c.args[mi] if mi is not None else None
+                        if isinstance(msg, ast.Lambda) and not msg.args.args:
+                            msg = msg.body  # a lazily built message
+                        a = ast.Assert(test=c.args[pi], msg=msg)
                         return ast.copy_location(a, n)
             return n
-    tree = T().visit(tree)
-    ast.fix_missing_locations(tree)
+
+        depth = 0
+
+        def visit_FunctionDef(self, n):
+            self.depth += 1
+            self.generic_visit(n)
+            self.depth -= 1
+            return n
+
+        def visit_Assign(self, n):
+            self.generic_visit(n)
+            # x = A if c else B   ->   if c: x = A else: x = B      (inside functions; module / class level bindings stay one statement)
+            if isinstance(n.value, ast.IfExp) and len(n.targets) == 1 and self.depth > 0:
+                from .core import copy_tree
+                a = ast.copy_location(ast.Assign(targets=[n.targets[0]], value=n.value.body), n)
+                b = ast.copy_location(ast.Assign(targets=[copy_tree(n.targets[0])], value=n.value.orelse), n)
+                return ast.copy_location(ast.If(test=n.value.test, body=[a], orelse=[b]), n)
+            return n
+
+        def visit_For(self, n):
+            self.generic_visit(n)
+            # for x in (A if c else ()): BODY   ->   if c: for x in A: BODY
+            it = n.iter
+            if isinstance(it, ast.IfExp) and not n.orelse:
+                empty = lambda e: isinstance(e, (ast.Tuple, ast.List)) and not e.elts
+                if empty(it.orelse) and not empty(it.body):
+                    n.iter = it.body
+                    return ast.copy_location(ast.If(test=it.test, body=[n], orelse=[]), n)
+                if empty(it.body) and not empty(it.orelse):
+                    n.iter = it.orelse
+                    return ast.copy_location(ast.If(test=_negate(it.test), body=[n], orelse=[]), n)
+            return n
+
+        def visit_Call(self, n):
+            self.generic_visit(n)
+            # all(map(f, S)) / any(map(f, S))  ->  all(f(_x) for _x in S)
+            if isinstance(n.func, ast.Name) and n.func.id in ("all", "any") and len(n.args) == 1 and not n.keywords:
+                m = n.args[0]
+                if isinstance(m, ast.Call) and isinstance(m.func, ast.Name) and m.func.id == "map" and len(m.args) == 2 and not m.keywords \
+                        and isinstance(m.args[0], (ast.Name, ast.Attribute)):
+                    var = ast.Name(id="_each", ctx=ast.Load())
+                    gen = ast.GeneratorExp(elt=ast.Call(func=m.args[0], args=[var], keywords=[]),
+                                           generators=[ast.comprehension(target=ast.Name(id="_each", ctx=ast.Store()), iter=m.args[1], ifs=[], is_async=0)])
+                    n.args = [ast.copy_location(gen, m)]
+            return n
+    need = False
+    for x in nodes:
+        if isinstance(x, ast.For) and isinstance(x.iter, ast.IfExp):
+            need = True
+            break
+        if isinstance(x, ast.Assign) and isinstance(x.value, ast.IfExp):
+            need = True
+            break
+        if isinstance(x, ast.If):
+            if not x.orelse and len(x.body) == 1 and isinstance(x.body[0], ast.Raise):
+                need = True
+                break
+        elif isinstance(x, ast.Call) and isinstance(x.func, ast.Name):
+            if x.func.id in helpers or (x.func.id in ("all", "any") and len(x.args) == 1 and isinstance(x.args[0], ast.Call)
+                                        and isinstance(x.args[0].func, ast.Name) and x.args[0].func.id == "map"):
+                need = True
+                break
+        elif isinstance(x, ast.Call) and isinstance(x.func, ast.Attribute) and x.func.attr in helpers:
+            need = True
+            break
+    if need:
+        tree = T().visit(tree)
+        ast.fix_missing_locations(tree)
+        nodes = None
+    if _instantiate_factories(tree):
+        nodes = None
+    if _desugar_bulk(tree, nodes if nodes is not None else list(ast.walk(tree))):
+        nodes = None
+    from .unroll import unroll
+    tree, _n = unroll(tree, nodes)
     return tree
